@@ -166,6 +166,12 @@ def special(r, doc):
             b[alias] = copy.deepcopy(b[k])
             out.append(("sparse key alias %s of %s at /%s" % (alias, k, "/".join(map(str, p))), d))
             break
+    nums = [p for p, v in paths(doc) if p and isinstance(v, (int, float)) and not isinstance(v, bool)]
+    if nums:
+        p = r.choice(nums)
+        d = copy.deepcopy(doc)
+        get(d, p[:-1])[p[-1]] = True
+        out.append(("bool for number at /%s" % "/".join(map(str, p)), d))
     for p, v in paths(doc):
         if isinstance(v, dict) and "values" in v and "range" in v and v["values"]:
             d = copy.deepcopy(doc)
@@ -194,5 +200,21 @@ def oracle(p, run, exact):
             continue
         if ob[0] == 0:
             fails.append({"clause": "a malformed document is rejected", "mutation": desc, "op": i,
-                          "diff": "fromJson returned a container"})
+                          "diff": "fromJson returned a container",
+                          "known": desc.startswith("bool for number")})
     return fails[:6]
+
+
+def is_known(kf, prog, fails):
+    if kf.get("id") != "C15-bool-accepted-as-number":
+        return False
+    return all(f.get("known") is True for f in fails)
+
+
+def replay_known(kf):
+    import histogrammar as hg
+    try:
+        h = hg.Factory.fromJson({"type": "Count", "data": True, "version": "1.1"})
+    except Exception:  # noqa: BLE001
+        return False
+    return h.entries == 1.0
